@@ -41,12 +41,15 @@ def _work(task):
         ex.nchecks = ex.nontrivial = 0
         sample = {}
 
+        samples = []
+
         def on_end(e):
-            if "model" not in sample and G.get("validate", 0) and idx % G.get("validate_every", 1) == 0:
+            # up to four sampled paths: the first one whose concrete re-run has no near-tie comparison is the validated one
+            if len(samples) < 4 and G.get("validate", 0) and idx % G.get("validate_every", 1) == 0:
                 m = e._model()
                 if m is not None:
-                    sample["model"] = e.model_dict(m)
-                    sample["trail"] = list(e.trail)
+                    samples.append(e.model_dict(m))
+                    sample["model"] = samples[0]
         summ = core.explore(ex, harness, max_paths=G.get("max_paths", 200000), time_budget=G.get("time_budget"),
                             on_path_end=on_end)
         out.update(summary=summ, stats=dict(ex.stats), nchecks=ex.nchecks, nontrivial=ex.nontrivial,
@@ -68,13 +71,21 @@ def _work(task):
                     c = dict(confirmed=False, how="replay machinery failed: %s" % traceback.format_exc()[-600:], text="", c_file=None)
                 rec.update(confirmed=c["confirmed"], how=c["how"], c_text=c.get("text", ""), mismatch=c.get("mismatch", False))
             out["findings"].append(rec)
-        if "model" in sample:
+        for k, model in enumerate(samples):
             try:
-                v = replay.validate_path(_factory, harness, sample["model"], G["cfg"], G["replay_srcs"], "v%d" % idx, tol=G.get("tol", 1e-9))
-                if v is not None:
-                    out["validated"] = dict(ok=v[0], diffs=v[1][:5], calls=v[2], model=_jsonable(sample["model"]))
+                v = replay.validate_path(_factory, harness, model, G["cfg"], G["replay_srcs"], "v%d_%d" % (idx, k), tol=G.get("tol", 1e-9))
+                if v is None:
+                    continue
+                if not v[0] and v[3]:
+                    # the exact-real re-run took a branch on a comparison closer than 1e-9 (relative): the IEEE twin may
+                    # legitimately go the other way; this sample says nothing about the translator - try the next one
+                    out["fragile_samples"] = out.get("fragile_samples", 0) + 1
+                    continue
+                out["validated"] = dict(ok=v[0], diffs=v[1][:5], calls=v[2], model=_jsonable(model))
+                break
             except Exception as e:
                 out["validated"] = dict(ok=False, diffs=["validation machinery failed: " + traceback.format_exc()[-500:]], calls=0)
+                break
     except Exception as e:
         out["error"] = traceback.format_exc()[-1500:]
     out["wall_s"] = time.time() - t0
@@ -169,6 +180,8 @@ def run_e2(res, cfg, src_names, instances, builder, wrappers=(), defs=(), replay
             else:
                 verdict = "inconclusive"
                 res.error("%s instance %s: %s %s %s" % (group, o["name"], f["kind"], f["label"], f["detail"][:300]))
+        if o.get("fragile_samples"):
+            res.extra["validation_samples_skipped_near_tie"] = res.extra.get("validation_samples_skipped_near_tie", 0) + o["fragile_samples"]
         v = o.get("validated")
         if v:
             if v["ok"]:
